@@ -11,6 +11,7 @@
 package vgis3
 
 import (
+	"context"
 	"crypto/rand"
 	"fmt"
 	"io"
@@ -23,6 +24,9 @@ import (
 	"sync"
 	"testing"
 	"time"
+
+	"github.com/aws/aws-sdk-go-v2/service/s3"
+	"github.com/aws/smithy-go/middleware"
 
 	"github.com/Query-farm/vgi-rpc-go/vgirpc/s3/internal/verif/venum"
 	"github.com/Query-farm/vgi-rpc-go/vgirpc/s3/internal/verif/vsched"
@@ -41,6 +45,10 @@ type zc33FakeS3 struct {
 	// tooLong counts PUTs refused because the key exceeds the store's limit (like S3's
 	// KeyTooLongError: nothing is written).
 	tooLong int
+	// failNext > 0: the next PUT is answered with this status and nothing is written (an
+	// environment fault: the store refuses one request); refused counts them.
+	failNext int
+	refused  int
 }
 
 // zc33MaxKey is the object-key limit the fake enforces, as S3 does (1024 bytes of UTF-8).
@@ -48,7 +56,7 @@ const zc33MaxKey = 1024
 
 func (f *zc33FakeS3) reset() {
 	f.mu.Lock()
-	f.puts, f.bad, f.tooLong = nil, nil, 0
+	f.puts, f.bad, f.tooLong, f.failNext, f.refused = nil, nil, 0, 0, 0
 	f.mu.Unlock()
 }
 
@@ -62,6 +70,15 @@ func (f *zc33FakeS3) ServeHTTP(w http.ResponseWriter, r *http.Request) {
 	if r.Method != http.MethodPut || i <= 0 || i == len(p)-1 {
 		f.bad = append(f.bad, r.Method+" "+r.URL.Path)
 		w.WriteHeader(http.StatusBadRequest)
+		return
+	}
+	if f.failNext > 0 {
+		code := f.failNext
+		f.failNext = 0
+		f.refused++
+		w.Header().Set("Content-Type", "application/xml")
+		w.WriteHeader(code)
+		io.WriteString(w, `<?xml version="1.0" encoding="UTF-8"?><Error><Code>AccessDenied</Code><Message>Access Denied</Message></Error>`)
 		return
 	}
 	if len(p[i+1:]) > zc33MaxKey {
@@ -177,6 +194,79 @@ func (s *zc33Stream) name() string {
 // zc33Steps is the clock alphabet: how far the clock has moved since the previous upload.
 var zc33Steps = []time.Duration{0, 1 * time.Nanosecond, 999 * time.Nanosecond, time.Microsecond, time.Millisecond}
 var zc33StepNames = []string{"+0", "+1ns", "+999ns", "+1us", "+1ms"}
+
+// zc33Ctl runs uploads as cooperative threads: each upload is a goroutine that parks at the two
+// scheduling points inside PutObject ("request filled in, not yet serialized": an Initialize-step
+// middleware; "request serialized, not yet sent": the HTTP client) and only runs while the
+// controller has resumed it, so exactly one thread runs at a time and the interleaving is the
+// explorer's choice. Outside a threaded section the points do nothing.
+type zc33Ctl struct{ cur *zc33Thread }
+
+type zc33Thread struct {
+	resume chan struct{}
+	parked chan string
+	done   bool
+	err    error
+}
+
+func (c *zc33Ctl) point(name string) {
+	t := c.cur
+	if t == nil {
+		return
+	}
+	t.parked <- name
+	<-t.resume
+}
+
+func (c *zc33Ctl) spawn(run func() error) *zc33Thread {
+	t := &zc33Thread{resume: make(chan struct{}), parked: make(chan string)}
+	go func() {
+		<-t.resume
+		t.err = run()
+		t.parked <- "done"
+	}()
+	return t
+}
+
+// advance lets t run to its next point (or to completion) and returns the point's name.
+func (c *zc33Ctl) advance(t *zc33Thread) string {
+	c.cur = t
+	t.resume <- struct{}{}
+	ev := <-t.parked
+	c.cur = nil
+	if ev == "done" {
+		t.done = true
+	}
+	return ev
+}
+
+type zc33HTTP struct {
+	inner s3.HTTPClient
+	ctl   *zc33Ctl
+}
+
+func (h zc33HTTP) Do(r *http.Request) (*http.Response, error) {
+	h.ctl.point("serialized")
+	return h.inner.Do(r)
+}
+
+// zc33WithPoints returns a copy of the storage whose client is the constructor's client (same
+// options: endpoint, region, credentials) plus the two scheduling points (the constructor's retry behaviour is kept:
+// a send that fails because two requests share one body is retried by the SDK, as in production).
+func zc33WithPoints(st *S3Storage, ctl *zc33Ctl) *S3Storage {
+	cp := *st
+	cp.client = s3.New(st.client.Options(), func(o *s3.Options) {
+		o.HTTPClient = zc33HTTP{inner: o.HTTPClient, ctl: ctl}
+		o.APIOptions = append(o.APIOptions, func(stack *middleware.Stack) error {
+			return stack.Initialize.Add(middleware.InitializeMiddlewareFunc("zc33RequestFilled",
+				func(ctx context.Context, in middleware.InitializeInput, next middleware.InitializeHandler) (middleware.InitializeOutput, middleware.Metadata, error) {
+					ctl.point("filled")
+					return next.HandleInitialize(ctx, in)
+				}), middleware.After)
+		})
+	})
+	return &cp
+}
 
 func TestVerif_C33_S3(t *testing.T) {
 	venum.Begin("C33")
@@ -328,6 +418,123 @@ func TestVerif_C33_S3(t *testing.T) {
 		}
 		x.Outcome("n=%d prefix=%q partition=%v %s", n, prefix, part, shape)
 	}
+	// Store faults and overlapping uploads. History: 0..H earlier uploads, each of which the store
+	// may refuse (environment answer: 403, nothing written; the Upload error is then expected),
+	// followed by TWO uploads through the two handles running as cooperative threads with the
+	// scheduling points "request filled in" and "request serialized" inside PutObject; every
+	// interleaving of the two threads' three segments is enumerated (20 schedules). Keys written
+	// by the store in the execution must be pairwise distinct.
+	ctl := &zc33Ctl{}
+	pointTmpl := [2]*S3Storage{zc33WithPoints(tmpl[""][0], ctl), zc33WithPoints(tmpl[""][1], ctl)}
+	// The histories are ordered so that those with a refused upload come first and the space runs
+	// before every other space of this process, in ONE process (not sharded): a backend that keeps
+	// process-wide state (a free list, a cache) is then driven from its initial state through
+	// "fault first", and whatever state that leaves is the same for an execution and for its
+	// confirmation re-runs. (The verdict itself only looks at keys received in the execution.)
+	faultBody := func(x *venum.X, maxPrior int) {
+		var hists []string
+		for n := 1; n <= maxPrior; n++ {
+			for m := 0; m < 1<<n; m++ {
+				h := ""
+				for i := 0; i < n; i++ {
+					h += string("RW"[m>>i&1]) // R: refused by the store, W: written
+				}
+				hists = append(hists, h)
+			}
+		}
+		sort.SliceStable(hists, func(a, b int) bool { return strings.Contains(hists[a], "R") && !strings.Contains(hists[b], "R") })
+		hists = append(hists, "")
+		plan := hists[x.Choose(len(hists), "earlier-uploads (R = the store answers 403, W = written)")]
+		nPrior := len(plan)
+		fake.reset()
+		ctl.cur = nil
+		vsched.FreezeClock(base)
+		defer vsched.UnfreezeClock()
+		stream := zc33NewStream(15)
+		rand.Reader = stream
+		defer func() { rand.Reader = realRand }()
+		stA, stB := *pointTmpl[0], *pointTmpl[1]
+		handles := [2]*S3Storage{&stA, &stB}
+		var hist []string
+		anyRefused := false
+		for i := 0; i < nPrior; i++ {
+			refuse := plan[i] == 'R'
+			if refuse {
+				fake.failNext = 403
+				anyRefused = true
+			}
+			before, ref := len(fake.puts), fake.refused
+			_, err := handles[i%2].Upload([]byte("same-payload"), nil, "")
+			switch {
+			case !refuse && err == nil && len(fake.puts) == before+1:
+				hist = append(hist, "written")
+			case refuse && err != nil && len(fake.puts) == before && fake.refused == ref+1:
+				hist = append(hist, "refused-by-store")
+			default:
+				// Not an engine error: a backend with process-wide state corrupted by an earlier
+				// execution may answer oddly here; the verdict below only looks at the keys the
+				// store received in this execution.
+				hist = append(hist, "anomalous")
+				x.Note("earlier upload %d: refuse=%v err=%v written=%d refused=%d (bad=%v)", i, refuse, err, len(fake.puts)-before, fake.refused-ref, fake.bad)
+			}
+		}
+		// two overlapping uploads
+		threads := [2]*zc33Thread{}
+		for h := range threads {
+			h := h
+			threads[h] = ctl.spawn(func() error {
+				_, err := handles[h].Upload([]byte("same-payload"), nil, "")
+				return err
+			})
+		}
+		var sched []string
+		for step := 0; ; step++ {
+			var alive []int
+			for h, th := range threads {
+				if !th.done {
+					alive = append(alive, h)
+				}
+			}
+			if len(alive) == 0 {
+				break
+			}
+			h := alive[0]
+			if len(alive) > 1 {
+				h = alive[x.Choose(2, fmt.Sprintf("run-thread@step%d", step))]
+			}
+			sched = append(sched, fmt.Sprintf("%d:%s", h, ctl.advance(threads[h])))
+		}
+		rand.Reader = realRand
+		x.Note("schedule %v", sched)
+		errs := 0
+		for h, th := range threads {
+			if th.err != nil {
+				errs++
+				x.Note("overlapping upload through handle %d failed: %v", h, th.err)
+			}
+		}
+		first := map[string]int{}
+		collisions := 0
+		for j, pu := range fake.puts {
+			i, seen := first[pu.Key]
+			if !seen {
+				first[pu.Key] = j
+				continue
+			}
+			collisions++
+			class := "no-refusal-in-this-execution"
+			if anyRefused {
+				class = "after-a-refused-upload"
+			}
+			x.Failf("C33:s3:key-reused:overlapping-uploads:"+class,
+				"history %v, then two uploads overlapped with schedule %v: PUT #%d and PUT #%d received by the store carry the same object key %q (the later one overwrote the earlier one)",
+				hist, sched, i, j, pu.Key)
+		}
+		x.Outcome("faults hist=%v written=%d upload-errors=%d collisions=%d", hist, len(fake.puts), errs, collisions)
+	}
+	venum.Explore(t, venum.Cfg{Name: "s3-store-faults-overlapping-uploads", CheckDeterminism: true},
+		func(x *venum.X) { faultBody(x, venum.QT(1, 3)) })
+
 	// Overlap on the entropy seam: a LONG sequence of uploads through handle 0 (long enough to
 	// cross the boundary of a process-wide batch of up to 64 keys twice from any starting
 	// offset), during which ONE entropy read — the k-th top-level Read of the swapped
